@@ -322,6 +322,8 @@ impl<'a, R: Clone> AsyncGlobalCache<'a, R> {
                 .duration_since(std::time::UNIX_EPOCH)
                 .unwrap()
                 .as_secs();
+            #[cfg(feature = "verif-hooks")]
+            let now = crate::verif_hooks::unix_secs(now);
 
             // Check if expired
             // Use saturating_sub to avoid underflow when system clock moves backwards
@@ -445,6 +447,8 @@ impl<'a, R: Clone> AsyncGlobalCache<'a, R> {
             .duration_since(std::time::UNIX_EPOCH)
             .unwrap()
             .as_secs();
+        #[cfg(feature = "verif-hooks")]
+        let timestamp = crate::verif_hooks::unix_secs(timestamp);
 
         let mut order = self.order.lock();
 
@@ -588,6 +592,8 @@ impl<'a, R: Clone> AsyncGlobalCache<'a, R> {
             .duration_since(std::time::UNIX_EPOCH)
             .unwrap()
             .as_secs();
+        #[cfg(feature = "verif-hooks")]
+        let now = crate::verif_hooks::unix_secs(now);
 
         for (idx, evict_key) in order.iter().enumerate() {
             if let Some(entry) = self.cache.get(evict_key) {
@@ -802,6 +808,8 @@ impl<'a, R: Clone + crate::MemoryEstimator> AsyncGlobalCache<'a, R> {
             .duration_since(std::time::UNIX_EPOCH)
             .unwrap()
             .as_secs();
+        #[cfg(feature = "verif-hooks")]
+        let timestamp = crate::verif_hooks::unix_secs(timestamp);
 
         let mut order = self.order.lock();
 
